@@ -75,6 +75,7 @@ class EnumSpec:
     const_into_str: bool = False
     raw_attrs: List[str] = field(default_factory=list)        # e.g. strum_discriminants(...)
     vis: str = "pub"
+    macro_args: List[tuple] = field(default_factory=list)     # [(name, fragment, tokens)]: the enum is the body of a macro_rules! invoked with these
     subst: dict = field(default_factory=dict)   # type parameter -> concrete type used by the harness
     role: str = "pivot"           # pivot | random
     note: str = ""
@@ -360,6 +361,11 @@ def render_enum(spec: EnumSpec):
     for v in spec.variants:
         lines.append(render_variant(v))
     lines.append("}")
+    if spec.macro_args:
+        # the definition reaches the derive through macro_rules! fragment substitution ($x:expr arrives as an invisible group)
+        pat = ", ".join("$%s:%s" % (n, f) for n, f, _ in spec.macro_args)
+        lines = ["macro_rules! mk_%s {" % spec.name.lower(), "    (%s) => {" % pat] + ["        " + l for l in lines] + \
+                ["    };", "}", "mk_%s!(%s);" % (spec.name.lower(), ", ".join(t for _, _, t in spec.macro_args))]
     return "\n".join(lines)
 
 
